@@ -334,7 +334,8 @@ impl<H: Header> DynSizedStructure<H> {
         let ptr = bytes.as_ptr().cast::<H>();
         let hdr = unsafe { &*ptr };
 
-        if hdr.payload_len() > bytes.len() {
+        // `BytesRef` guarantees that the bytes cover at least the header.
+        if hdr.payload_len() > bytes.len() - mem::size_of::<H>() {
             return Err(MemoryError::InvalidReportedTotalSize);
         }
 
